@@ -17,8 +17,8 @@ LEVEL = "model_checking"
 RULE = (
     "states = lists [e_1..e_m] (m<=3) of row recipes: every singleton of the full row menu (each jacobian_row "
     "implementation as a root and under f+c, f-c, c+f, c*f, f*c, -f, f+x wrappers; every layer-A tree of depth<=1; "
-    "scaled-variable patterns and near-misses), all ordered pairs of the reduced menu and all triples of the "
-    "small menu; transitions = API calls on the real code (builder ops, compile_jacobian / compile_gradient / "
+    "scaled-variable patterns and near-misses), all ordered pairs of the reduced menu, every full-menu row paired in "
+    "both orders with every row of the small (quick) / reduced (thorough) menu, and all triples of the small menu; transitions = API calls on the real code (builder ops, compile_jacobian / compile_gradient / "
     "CompiledExpression per variable list of the menu natural, reversed, rotated, superset-front/mid/end); an "
     "evaluation = one Jacobian entry compared with the jet reference at a regular grid point.  Non-trivial = "
     "list with >=1 variable and >=1 regular point; distinct by canonical tuple of recipes.  Outcome classes "
@@ -108,6 +108,12 @@ def all_cases(tier):
     sm = small_menu() if tier == "thorough" else small_menu()[:7]
     for t in itertools.product(sm, repeat=3):
         yield t
+    # every row of the full menu next to every row of the small (quick) / reduced (thorough) menu, both orders
+    others = red if tier == "thorough" else small_menu()
+    for a in full_menu():
+        for b in others:
+            yield (a, b)
+            yield (b, a)
 
 
 NSH = 32
